@@ -80,3 +80,37 @@ def a_detached_copy_keeps_the_indices_and_drops_the_grid(i: int, j: int, k: int,
     assert not (cp == loc), "equality of locators includes the grid"
     assert loc.grid is g and g[i, j, k] is loc, "the original stays in its grid"
     assert isinstance(cp, IndexLocation)
+
+
+MultiIndexLocation = repo("armi.reactor.grids.locations:MultiIndexLocation")
+
+
+@lemma(gen={"i": (-40, 40), "j": (-40, 40), "k": (-5, 5), "a": (-40, 40), "b": (-40, 40), "c": (-5, 5)})
+def a_list_of_index_triples_gives_the_locators_of_these_cells_in_order(i: int, j: int, k: int, a: int, b: int, c: int, cornersUp: bool):
+    """grid[[t1, t2]] (the locator of a component with multiplicity 2): a MultiIndexLocation of this grid whose members
+    are THE locators of the two cells (one object per cell), in the order given; `indices` lists the two triples;
+    a detached copy keeps both triples in order, drops the grid from the collection and from every member, and leaves the
+    original attached; associate(grid) ties the collection and every member to the grid."""
+    g = hexgrid(1.0, cornersUp)
+    h = hexgrid(1.0, cornersUp)
+    m = g[[(i, j, k), (a, b, c)]]
+    assert isinstance(m, MultiIndexLocation) and m.grid is g and len(m) == 2
+    assert m[0] is g[i, j, k] and m[1] is g[a, b, c], "the members are the grid's locators of these cells, in order"
+    ind = m.indices
+    assert len(ind) == 2
+    assert (ind[0][0], ind[0][1], ind[0][2]) == (i, j, k) and (ind[1][0], ind[1][1], ind[1][2]) == (a, b, c)
+    n = 0
+    for loc in m:
+        assert loc.grid is g
+        n += 1
+    assert n == 2
+    cp = m.detachedCopy()
+    assert cp is not m and cp.grid is None and len(cp) == 2
+    assert (cp[0].i, cp[0].j, cp[0].k) == (i, j, k) and (cp[1].i, cp[1].j, cp[1].k) == (a, b, c)
+    assert cp[0].grid is None and cp[1].grid is None, "every member is detached too"
+    assert cp[0] is not m[0] and cp[1] is not m[1]
+    assert m.grid is g and m[0].grid is g and m[1].grid is g and len(m) == 2, "the original stays attached"
+    cp.associate(h)
+    assert cp.grid is h and cp[0].grid is h and cp[1].grid is h, "associate ties the collection and its members"
+    assert (cp[0].i, cp[0].j, cp[0].k) == (i, j, k) and (cp[1].i, cp[1].j, cp[1].k) == (a, b, c)
+    assert m[0].grid is g and m[1].grid is g
